@@ -22,7 +22,7 @@ import operator
 
 import z3
 
-from .sym import (Sym, SInt, SBool, SReal, SBuf, SOpaque, SIPStr, SDecStr, Blob, Unsupported, Infeasible, tz_of,
+from .sym import (Sym, SInt, SBool, SReal, SBuf, SOpaque, SIPStr, SDecStr, SOption, Blob, Unsupported, Infeasible, tz_of,
                   mk_int, mk_bool, mk_real, int_term, real_term, bool_term, is_sym,
                   is_intlike, is_reallike, bits_of, int_bitop, py_floordiv_term, py_mod_term,
                   buf_of, is_buflike, _mask_upto)
@@ -158,6 +158,8 @@ SYM_PLACEHOLDER_STR = "<symbolic>"
 
 # python type seen by isinstance / type() for symbolic wrappers
 def pytype_of(v):
+    if isinstance(v, SOption):
+        raise Unsupported("type of an unresolved optional value")
     if isinstance(v, SInt):
         return int
     if isinstance(v, SBool):
@@ -241,8 +243,18 @@ class Interp(object):
     #   truth, equality, arithmetic
     # ------------------------------------------------------------------
 
+    def force(self, v):
+        """resolve a lazily-nullable value: decide whether it is None"""
+        while isinstance(v, SOption):
+            isn = v.isnone
+            if isinstance(isn, SBool):
+                isn = self.ctx.decide(isn.t)
+            v = None if isn else v.value
+        return v
+
     def truth_term(self, v):
         """python truthiness as bool or SBool, without branching"""
+        v = self.force(v)
         if isinstance(v, SBool):
             return v
         if isinstance(v, SInt):
@@ -277,6 +289,7 @@ class Interp(object):
 
     def eq(self, a, b):
         """a == b as bool or SBool"""
+        a, b = self.force(a), self.force(b)
         if a is b and not isinstance(a, (SReal, float)):
             return True
         sa, sb = isinstance(a, Sym), isinstance(b, Sym)
@@ -383,6 +396,7 @@ class Interp(object):
         return mk_bool(z3.simplify(z3.Not(t.t)))
 
     def binop(self, op, a, b):
+        a, b = self.force(a), self.force(b)
         if not isinstance(a, Sym) and not isinstance(b, Sym):
             # concrete (may still be containers holding syms; python ops on
             # containers do not look inside for + and *)
@@ -550,6 +564,10 @@ class Interp(object):
         return NotImplemented
 
     def compare(self, op, a, b):
+        if isinstance(op, (ast.Is, ast.IsNot)):
+            r = self.is_(a, b)
+            return r if isinstance(op, ast.Is) else (not r)
+        a, b = self.force(a), self.force(b)
         if isinstance(op, ast.Eq):
             return self.eq(a, b)
         if isinstance(op, ast.NotEq):
@@ -622,6 +640,13 @@ class Interp(object):
         return shorter_first if isinstance(op, (ast.Lt, ast.LtE)) else not shorter_first
 
     def is_(self, a, b):
+        if a is b:
+            return True
+        if isinstance(a, SOption) and b is None:
+            return self.truth(a.isnone) if isinstance(a.isnone, SBool) else bool(a.isnone)
+        if isinstance(b, SOption) and a is None:
+            return self.truth(b.isnone) if isinstance(b.isnone, SBool) else bool(b.isnone)
+        a, b = self.force(a), self.force(b)
         if a is b:
             return True
         # small ints / bools / None compared by identity in the target code
@@ -718,6 +743,7 @@ class Interp(object):
             raise
 
     def _getattr(self, obj, name):
+        obj = self.force(obj)
         if isinstance(obj, Sym):
             m = self.models.sym_method(self, obj, name)
             if m is None:
@@ -838,6 +864,7 @@ class Interp(object):
         raise PyRaise(AttributeError("'super' object has no attribute %r" % name))
 
     def setattr(self, obj, name, value):
+        obj = self.force(obj)
         if isinstance(obj, Sym):
             raise PyRaise(AttributeError("can't set attribute on %s" % pytype_of(obj).__name__))
         if isinstance(obj, types.ModuleType):
@@ -884,6 +911,7 @@ class Interp(object):
     # ------------------------------------------------------------------
 
     def call(self, f, args, kwargs):
+        f = self.force(f)
         if isinstance(f, BoundMethod):
             return self.call_function(f.func, [f.self] + list(args), kwargs, defclass=f.defclass)
         if isinstance(f, ModelMethod):
@@ -909,6 +937,8 @@ class Interp(object):
         return self.call_native(f, args, kwargs)
 
     def call_native(self, f, args, kwargs):
+        args = [self.force(a) for a in args]
+        kwargs = dict((k, self.force(v)) for k, v in kwargs.items())
         m = self.models.lookup(self, f)
         if m is not None:
             return m(self, *args, **kwargs)
@@ -924,6 +954,8 @@ class Interp(object):
             raise PyRaise(e)
 
     def instantiate(self, cls, args, kwargs):
+        if not self.cfg.is_repo_class(cls):
+            args = [self.force(a) for a in args]
         m = self.models.lookup(self, cls)
         if m is not None:
             return m(self, *args, **kwargs)
@@ -1336,6 +1368,7 @@ class Interp(object):
             e = self.instantiate(e, [], {})
         if not isinstance(e, BaseException):
             raise PyRaise(TypeError("exceptions must derive from BaseException"))
+        self.last_raise_stack = '>'.join(self.call_stack) + ':%d' % node.lineno
         raise PyRaise(e)
 
     def ex_Try(self, node, frame):
@@ -1508,6 +1541,7 @@ class Interp(object):
         return None
 
     def getitem(self, obj, idx):
+        obj, idx = self.force(obj), self.force(idx)
         if isinstance(obj, SBuf):
             if isinstance(idx, slice):
                 if idx.step is not None:
@@ -1569,6 +1603,7 @@ class Interp(object):
         return -n - 1 if False else 0
 
     def setitem(self, obj, idx, value):
+        obj, idx = self.force(obj), self.force(idx)
         if isinstance(obj, SBuf):
             raise Unsupported("item assignment into symbolic buffer")
         if isinstance(obj, list):
@@ -1645,6 +1680,7 @@ class Interp(object):
 
     def iterate(self, v):
         """materialise an iterable as a python list"""
+        v = self.force(v)
         if isinstance(v, (list, tuple)):
             return list(v)
         if isinstance(v, SBuf):
@@ -1751,7 +1787,7 @@ class Interp(object):
         return ''.join(parts)
 
     def ev_UnaryOp(self, node, frame):
-        v = self.ev(node.operand, frame)
+        v = self.force(self.ev(node.operand, frame))
         if isinstance(node.op, ast.Not):
             return self.not_(v)
         if not isinstance(v, Sym):
